@@ -254,13 +254,34 @@ def _s_repair(spec, hz):
 _S_CLASS = {"typekey": "type-key-in-state", "numround": "number-rounded-to-6-digits"}
 
 
+# Harmless rewrites of the anchored code that the check must NOT alarm on (each built as a mutated object file in scratch,
+# linked into a scratch harness and run through the correspondence + attribution flow: no VIOLATION, 0 mismatches).
+# The patches are kept as documentation in corpus/C14/negative_controls/ (not applied by the check).
+NEGATIVE_CONTROLS = [
+    "nc1 ModifyAttribute/RestoreAttribute: locals renamed, independent statements reordered, the 'record unless recorded' step extracted into a static helper, "
+    "guards respelled (empty-then/else, flag loop instead of match/continue), both exception texts reworded",
+    "nc2 DumpObjects/RestoreObjects/DumpModifiedAttributes: types and objects written in REVERSE order, members of the persistent record listed in another order, "
+    "an extra counter, log texts reworded, `continue` guard turned into an if-block, empty original_attributes skipped early",
+    "nc3 AtomicFile: mkostemp(O_CLOEXEC) with another temp-name pattern, fchmod(fd) instead of chmod(path), 512-byte stream buffer (39 writes instead of 7), "
+    "the directory fsync'ed after the rename, error text reworded",
+    "nc4 Serialize/Deserialize: merged `continue` guards, nested ifs instead of `(a && !b) || !c`, renamed locals, exception text reworded",
+    "nc5 IcingaApplication::DumpModifiedAttributes (reached through private-member access): static helper renamed, comments/lines/braces moved, warning text reworded",
+]
+# What had to be loosened for them (nc3 alarmed first, by construction of the old harness): temp files are recognised by
+# 'name extends the target's name' instead of the literal '.tmp.' infix, fchmod/mkostemp/mkstemps are interposed, the protocol
+# predicate accepts any temp-file-only calls with every write fsync'ed before the single rename (theorem
+# crash_old_or_new_conforming covers exactly those words), leftover temp files after the next dump are a statistic, and the
+# bytes of a killed write are compared as a denotation (sorted netstring frames / per-object script blocks) so that the
+# order of objects in the file is free.
+
+
 class C14(Check):
     prop = "C14"
     required_theorems = ["modify_restore_partial", "modify_restore_absent_counterexample", "modify_restore_below_counterexample",
                          "modify_restore_emptydict_counterexample", "restore_clears_original", "modify_restore_meets_spec_partial",
                          "modification_survives_restart", "modifications_survive_restart",
                          "serialize_id", "deserialize_id_partial", "state_roundtrip_partial", "state_roundtrip_counterexample",
-                         "crash_old_or_new", "complete_write_reads_new", "crash_leaves_only_tmp", "atomic_write_conforms"]
+                         "crash_old_or_new", "crash_old_or_new_conforming", "complete_write_reads_new", "crash_leaves_only_tmp", "atomic_write_conforms"]
     technique = ("Lean 4 proof (round-trip law composed with C20's JSON/netstring theorems, algebra of modify/restore on value trees, invariant over "
                  "the system-call sequence of AtomicFile under an adversarial crash model) about hand-written executable models; correspondence by "
                  "differential execution of the real ModifyAttribute/RestoreAttribute, DumpObjects -> fresh process -> RestoreObjects + modified-attributes "
